@@ -309,3 +309,17 @@ package ingest
 //@   ensures result != nil && fresh(result) && fresh(result.Tags) && fresh(result.AreaMembers.ids) && fresh(result.AreaMembers.polygons)
 //@   ensures result.AreaID == a.AreaID && len(result.Tags) == len(a.Tags) && len(result.AreaMembers.ids) == len(a.AreaMembers.ids)
 //@   ensures forall(j, 0, len(a.AreaMembers.ids), implies(!isnil(a.AreaMembers.ids[j]), fresh(result.AreaMembers.ids[j]) && len(result.AreaMembers.ids[j]) == len(a.AreaMembers.ids[j])))
+
+// ---- C14: what a snapshot is made of ------------------------------------------------------
+// Snapshot freezes the current layers in a copy of the world and gives the live world fresh
+// ones. Nothing the snapshot keeps may lead back to the live world: in particular the search
+// index it keeps resolves the features it returns through the snapshot itself (a path found
+// by a query in the snapshot must take its points from the snapshot, not from later edits).
+//@ func (*MutableOverlayWorld).Snapshot
+//@   requires m != nil && m.index != nil && m.features != nil
+//@   modifies *m, *m.index
+//@   ensures ref(result) != ref(m) && fresh(result)
+//@   ensures ref(old(m.index).features) == ref(result)
+//@   ensures ref(m.index.features) == ref(m) && fresh(m.index)
+//@   ensures ref(m.base) == ref(result)
+//@   ensures fresh(m.features) && fresh(m.references) && fresh(m.tags)
